@@ -204,7 +204,11 @@ func cmdCheck(args []string) int {
 		detSeeds, detProcs = 5, 6
 	}
 	seedRng := core.NewRng(seed).Derive("runs/" + spec.Engine)
-	detBad := determinismSlice(bin, tier, seedRng.Derive("det"), detSeeds, detProcs, childTimeout)
+	sweepOnly := 0
+	if nSeeded == 0 && meta.SeededQuick == 0 {
+		sweepOnly = nSweep
+	}
+	detBad := determinismSlice(bin, tier, seedRng.Derive("det"), detSeeds, detProcs, childTimeout, sweepOnly)
 	if detBad != "" {
 		return harnessErr("determinism slice: %s", detBad)
 	}
@@ -501,7 +505,7 @@ func knownSeenSigs(l []*sigInfo) []*sigInfo {
 
 // determinismSlice runs a few cases several times at different GOMAXPROCS and compares the
 // complete result lines.
-func determinismSlice(bin, tier string, rng *core.Rng, seeds, procs int, to time.Duration) string {
+func determinismSlice(bin, tier string, rng *core.Rng, seeds, procs int, to time.Duration, sweepOnly ...int) string {
 	type res struct {
 		kase, raw string
 		err       string
@@ -509,10 +513,14 @@ func determinismSlice(bin, tier string, rng *core.Rng, seeds, procs int, to time
 	var mu sync.Mutex
 	var wg sync.WaitGroup
 	out := map[string][]string{}
+	skip := map[string]bool{}
 	var errs []string
 	gmps := []int{1, 4, 16}
 	for s := 0; s < seeds; s++ {
 		kase := fmt.Sprintf("seed:%d", rng.U64()>>1)
+		if len(sweepOnly) > 0 && sweepOnly[0] > 0 {
+			kase = fmt.Sprintf("sweep:%d", rng.Intn(sweepOnly[0])) // the engine only enumerates
+		}
 		for p := 0; p < procs; p++ {
 			wg.Add(1)
 			go func(kase string, p int) {
@@ -524,7 +532,16 @@ func determinismSlice(bin, tier string, rng *core.Rng, seeds, procs int, to time
 					errs = append(errs, fmt.Sprintf("%s: no result: %s %s", kase, o.Err, tail(o.Stderr, 800)))
 					return
 				}
-				out[kase] = append(out[kase], o.Raw)
+				if o.Res.Verdict == "harness-error" {
+					errs = append(errs, fmt.Sprintf("%s: %s", kase, o.Res.Harness))
+					return
+				}
+				if o.Res.Verdict != "ok" {
+					// a violating run is confirmed by re-execution of its tape; its detail may hold
+					// real measurements (bytes allocated), so it is not part of this comparison
+					skip[kase] = true
+				}
+				out[kase] = append(out[kase], stripVolatile(o.Raw))
 			}(kase, p)
 		}
 	}
@@ -533,6 +550,9 @@ func determinismSlice(bin, tier string, rng *core.Rng, seeds, procs int, to time
 		return errs[0]
 	}
 	for k, raws := range out {
+		if skip[k] {
+			continue
+		}
 		for _, r := range raws[1:] {
 			if r != raws[0] {
 				return fmt.Sprintf("case %s produced different result lines in different processes", k)
@@ -540,6 +560,28 @@ func determinismSlice(bin, tier string, rng *core.Rng, seeds, procs int, to time
 		}
 	}
 	return ""
+}
+
+// stripVolatile removes real measurements from a result line before the determinism comparison.
+func stripVolatile(raw string) string {
+	if !strings.Contains(raw, `"volatile"`) {
+		return raw
+	}
+	var m map[string]json.RawMessage
+	if json.Unmarshal([]byte(raw), &m) != nil {
+		return raw
+	}
+	delete(m, "volatile")
+	var r core.Result
+	if json.Unmarshal([]byte(raw), &r) != nil {
+		return raw
+	}
+	r.Volatile = nil
+	b, err := json.Marshal(r)
+	if err != nil {
+		return raw
+	}
+	return string(b)
 }
 
 func cmdReplay(args []string) int {
